@@ -242,6 +242,30 @@ pub fn c08_malformed(args: &[String]) {
     s.finish();
 }
 
+const PIECES: &[&str] = &["a", "n", "t", "é", "=", "%", "$", "{", "}", "x y", "\\\\", "\\\"", "\\n", "\\r", "\\t", "\\${", "${v}", "%{v}", "\\${v}"];
+const ODD: &[&str] = &["\\$n", "\\$\\", "\\$\"", "\\$t", "\\$r", "\\$$", "\\$${v}", "\\$ ", "\\$a", "\\a", "\\{", "\\ ", "\\#", "\\$", "\\"];
+fn near_valid(r: &mut Rng) -> String {
+    let mut text = String::new();
+    let lines = 1 + r.below(4);
+    for _ in 0..lines {
+        if r.chance(1, 4) { text.push_str(":lab "); }
+        if r.chance(1, 3) { text.push_str("o = "); }
+        text.push_str("cm");
+        for _ in 0..r.below(4) {
+            text.push(' ');
+            let quoted = r.chance(2, 3);
+            if quoted { text.push('"'); }
+            for _ in 0..r.below(4) {
+                let p = if r.chance(1, 12) { *r.pick(ODD) } else { *r.pick(PIECES) };
+                if !quoted && (p.contains(' ') || p.contains('#')) { text.push('a'); } else { text.push_str(p); }
+            }
+            if quoted { text.push('"'); }
+        }
+        if r.chance(1, 6) { text.push_str(" # c \\$n"); }
+        text.push_str(if r.chance(1, 3) { "\r\n" } else { "\n" });
+    }
+    text
+}
 const SOUP: &[char] = &[':', '=', '"', '\\', '#', '!', '$', '%', '{', '}', ' ', ' ', '\t', 'a', 'n', 'p', 'r', 'i', 't', '\n', '\n', '\r', 'é', '😀', '\u{a0}'];
 /// leg C of C08: arbitrary texts through the real parser, recorded for validation by Parser!ParseText
 pub fn c08_record(args: &[String]) {
@@ -255,9 +279,16 @@ pub fn c08_record(args: &[String]) {
         let len = match r.below(20) { 0 => 0, 1 => 200 + r.below(400), _ => r.below(40) };
         let mut text = String::new();
         if i % 11 == 0 { text.push_str("!print "); }
+        if i % 3 == 1 {
+            // near-valid texts: several lines of quoted / bare arguments assembled from escape pieces, so that an
+            // undocumented escape (\x, \$x, \$$, a trailing backslash) shows up late and alone instead of being
+            // shadowed by an earlier defect of the random soup
+            text = near_valid(&mut r);
+        } else {
         for _ in 0..len {
             let c = if r.chance(3, 4) { *r.pick(SOUP) } else { rand_char(&mut r) };
             text.push(c);
+        }
         }
         if text.contains("include_files") { continue; }
         chars += text.chars().count() as u64;
